@@ -686,6 +686,10 @@ func (g *Gen) genObserver() Op {
 	if g.R.Chance(0.8) {
 		ev = g.R.Intn(EvCustom0)
 	}
+	if n := len(g.S.observers); n > 0 && g.R.Chance(0.6) {
+		// cluster observers on few event types: their early-out unions interact
+		ev = g.S.observers[g.R.Intn(n)].Spec.Ev
+	}
 	spec.Ev = ev
 	rel := ev == EvAddRel || ev == EvRemoveRel
 	if g.R.Chance(0.45) {
